@@ -28,7 +28,8 @@ SHARD = 60
 RULE = ("random statement prefixes (SELECT with 1-3 FROM items incl. sub-queries, UPDATE [FROM], INSERT [.. SELECT], "
         "SELECT..INTO) on all ten dialect classes, followed by a random multiset of 2-8 clause-adding calls of the 17 "
         "kinds (arguments: fields of present/foreign/aliased/same-named tables, WITH names, sub-queries, strings, "
-        "constants, stars) plus a malformed stream (no FROM, on(None), using(), invalid join criteria, columns without "
+        "constants, stars; string arguments of select/groupby/orderby that coincide with selected aliases or not, in joined / "
+        "multi-FROM / plain statements) plus a malformed stream (no FROM, on(None), using(), invalid join criteria, columns without "
         "into, empty criteria); executed in several orders; non-trivial = at least two different kinds and at least one "
         "call that reads call-time state (select/groupby/orderby by name, where/prewhere, join, columns/insert); "
         "distinct by structural hash of prefix+calls")
@@ -828,7 +829,10 @@ def to_coq(case, outcome):
 # generator
 # ==============================================================================================
 POOL = [["T", "a", None], ["T", "b", None], ["T", "c", None], ["T", "b", "bb"], ["T", "d", None]]
-COLS = ["x", "y", "z", "id"]
+COLS = ["x", "y", "z", "id", "total"]
+# aliases given to selected terms: mostly names that are ALSO used as string arguments of select/groupby/orderby
+# (the str -> Field resolution at call time must not look at what has been selected so far)
+ALIASES = ["x", "y", "total", "total", "id", "al", "n"]
 WNAMES = ["w", "v"]
 HOWS = ["inner", "left", "right", "outer", "left_outer", "cross", "hash"]
 
@@ -862,10 +866,10 @@ class G:
             return ["cmp", r.choice(["eq", "gt", "lt", "ne"]), self.field(p_foreign), r.choice([1, 7, "k"])]
         return ["cmp", r.choice(["eq", "gt"]), self.field(p_foreign), self.field(p_foreign)]
 
-    def term(self, alias_p=0.2):
+    def term(self, alias_p=0.35):
         r = self.r
         x = r.random()
-        al = r.choice(["al", "x", "n"]) if r.random() < alias_p else None
+        al = r.choice(ALIASES) if r.random() < alias_p else None
         if x < 0.55:
             return ["field", self.field(), al]
         if x < 0.8:
@@ -899,7 +903,7 @@ class G:
                 if x < 0.35:
                     items.append(["s", r.choice(COLS + ["*"] if r.random() < 0.3 else COLS)])
                 elif x < 0.6:
-                    items.append(["f", ["field", self.field(), None]])
+                    items.append(["f", ["field", self.field(), r.choice(ALIASES) if r.random() < 0.3 else None]])
                 elif x < 0.7:
                     items.append(["f", ["star", self.tbl_ref(0.1)]])
                 elif x < 0.9:
@@ -1031,6 +1035,7 @@ def gen_case(rng, max_calls=6):
 def gen_cases(rng, tier):
     n = 260 if tier == "quick" else 4000
     out = [gen_case(rng, 6 if tier == "quick" else 8) for _ in range(n)]
+    out += gen_alias_family(rng, 70 if tier == "quick" else 700)
     for c in out:
         c["full"] = tier == "thorough"
     # directed pairs: every unordered pair of different kinds at least once, on a two-table SELECT
@@ -1047,6 +1052,48 @@ def gen_cases(rng, tier):
         if "select" not in (a, b):
             calls.append(["select", [["s", "x"]]])
         out.append({"cls": rng.choice(CLASSES), "prefix": pre, "calls": calls, "stmt": "select", "malformed": False})
+    return out
+
+
+def gen_alias_family(rng, n):
+    """string arguments of select/groupby/orderby whose name is (or is not) the alias of a selected term, in statements
+    that qualify their columns (join / second FROM / sub-query FROM / foreign reference) and in plain ones"""
+    out = []
+    a, b = ["T", "a", None], ["T", "b", None]
+    for _ in range(n):
+        g = G(rng)
+        alias = rng.choice(["total", "x", "y", "id"])
+        other = rng.choice([c for c in COLS if c != alias])
+        shape = rng.choice(["join", "join", "join", "from2", "subfrom", "foreign", "plain"])
+        pre = [["from", a]]
+        g.present = [a]
+        calls = []
+        if shape == "from2":
+            pre.append(["from", b]); g.present.append(b)
+        elif shape == "subfrom":
+            pre = [["from", ["Q", "x1", "1"]]]; g.present = [["Q", "x1", "1"]]
+        elif shape == "join":
+            calls.append(["join", b, rng.choice(["inner", "left"]), ["on", ["cmp", "eq", ["id", g.present[0]], ["id", b]], None]])
+        elif shape == "foreign":
+            calls.append(["where", ["cmp", "eq", ["id", g.present[0]], ["id", ["T", "d", None]]]])
+        t0 = g.present[0]
+        aliased = rng.choice([["o", ["fn", rng.choice(["Sum", "Count", "Max"]), [other, rng.choice(g.present)], alias]],
+                              ["f", ["field", [other, rng.choice(g.present)], alias]],
+                              ["o", ["arith", [other, t0], 1]]])          # the last one: no alias at all
+        calls.append(["select", [["f", ["field", ["id", t0], None]], aliased]])
+        name = alias if rng.random() < 0.7 else other                     # coincides with the alias / does not
+        for k in rng.sample(["orderby", "groupby", "select", "having", "limit", "distinct"], rng.choice([2, 3, 4])):
+            if k == "orderby":
+                calls.append(["orderby", [["s", name]], rng.choice([None, "desc"])])
+            elif k == "groupby":
+                calls.append(["groupby", [["s", name]]])
+            elif k == "select":
+                calls.append(["select", [["s", name]]])
+            else:
+                calls.append(g.call(k))
+        rng.shuffle(calls)
+        out.append({"cls": rng.choice(CLASSES), "prefix": pre, "calls": calls, "stmt": "select", "malformed": False,
+                    "family": "alias"})
     return out
 
 
@@ -1101,6 +1148,14 @@ def corpus():
                    ["where", ["cmp", "eq", ["y", ["T", "c", None]], 1]], sel]},
         {"cls": "MySQLQuery", "prefix": [["from", a]],
          "calls": [["for_update", False, True, ["a"]], sel, ["limit", 5]]},
+        # call-time str -> Field resolution must not consult the aliases selected so far (joined statement)
+        {"cls": "Query", "prefix": [["from", a]],
+         "calls": [["join", b, "inner", ["on", ["cmp", "eq", ["id", a], ["id", b]], None]],
+                   ["select", [["f", ["field", ["x", a], None]], ["o", ["fn", "Sum", ["y", b], "total"]]]],
+                   ["groupby", [["s", "x"]]], ["orderby", [["s", "total"]], None]]},
+        {"cls": "MySQLQuery", "prefix": [["from", a], ["from", b]],
+         "calls": [["select", [["f", ["field", ["y", b], "x"]]]], ["groupby", [["s", "x"]]], ["select", [["s", "x"]]],
+                   ["orderby", [["s", "x"]], "desc"]]},
         # malformed: no FROM
         {"cls": "Query", "prefix": [], "calls": [sel, ["where", ["cmp", "eq", ["x", a], 1]]]},
         {"cls": "Query", "prefix": [["from", a]],
@@ -1138,6 +1193,15 @@ def histogram(cases):
         inc("calls=%d" % len(c["calls"]))
         if c.get("malformed"):
             inc("malformed")
+        if c.get("family"):
+            inc("family=" + c["family"])
+        sel_aliases = {it[1][-1] for x in c["calls"] + c["prefix"] if x[0] == "select" for it in x[1]
+                       if it[0] in ("f", "o") and it[1][0] in ("field", "fn") and len(it[1]) > 2 and it[1][-1]}
+        for x in c["calls"]:
+            if x[0] in ("orderby", "groupby", "select"):
+                for it in x[1]:
+                    if it[0] == "s":
+                        inc("str-arg:%s:%s" % (x[0], "is-selected-alias" if it[1] in sel_aliases else "other"))
         for x in c["calls"]:
             inc("call=" + x[0])
         inc("interleavings<=%d" % (10 ** len(str(n_interleavings([kind(x) for x in c["calls"]])))))
